@@ -365,8 +365,8 @@ def run(repo, chk):
     # syntax errors carry a position
     se = repo.func("opparse.Location.syntax_error")
     t = norm(se.node)
-    chk.ob("R18.1", "opparse.Location.syntax_error:carries-position", "err.offset = self.start + 1" in t and "err.text = self.source" in t and "return err" in t, se.where,
-           "syntax errors carry the offending position and the source text")
+    chk.ob("R18.1", "opparse.Location.syntax_error:carries-position", "err.offset = self.start + 1" in t and "return err" in t, se.where,
+           "syntax errors carry the offending position")
     ev = repo.func("selector.Evaluator.__call__")
     t = norm(ev.node)
     chk.ob("R18.1", "selector.Evaluator.__call__:unknown-operator-is-a-syntax-error", "if action is None:" in t and "raise focus.location.syntax_error(msg)" in t, ev.where,
